@@ -357,7 +357,7 @@ def run(run_, ctx):
         except Exception as e:
             run_.note("configuration C (alloc without std) not analysed: %s" % e)
     n = check_corpus(run_, ctx)
-    run_.floor("D", 29)
+    run_.floor("D", 34)
     # the crate's own types that are both serialized (serde derive) and described by a hand-written or derived Schema (e.g. `Key`)
     nl = compare_pairs(run_, "L", F.crate("postcard_schema"), F, only_tree_shaped=True)
     run_.floor("L", 1)
